@@ -10,6 +10,7 @@ import (
 	"encoding/base64"
 	"encoding/hex"
 	"encoding/json"
+	"fmt"
 	"os"
 	"slices"
 	"strconv"
@@ -22,6 +23,7 @@ import (
 	"github.com/nspcc-dev/neofs-sdk-go/client"
 	"github.com/nspcc-dev/neofs-sdk-go/object"
 	oid "github.com/nspcc-dev/neofs-sdk-go/object/id"
+	"github.com/nspcc-dev/neofs-sdk-go/user"
 )
 
 // a searchable item as one shard would return it for a primary attribute
@@ -99,42 +101,75 @@ func indexLess(a, b mItem) int {
 }
 
 type mergeOut struct {
-	K     string     `json:"k"`
-	Kind  string     `json:"kind"`
-	Lim   int        `json:"lim"`
-	Sets  [][]mJSON  `json:"sets"`
-	Mores []bool     `json:"mores"`
-	Err   bool       `json:"err"`
-	Res   []mJSON    `json:"res"`
-	More  bool       `json:"more"`
-	Class string     `json:"class"`
+	K     string    `json:"k"`
+	Kind  string    `json:"kind"`
+	Attr  string    `json:"attr"`   // firstAttr (hex)
+	Int   bool      `json:"cmpint"` // cmpInt
+	Lim   int       `json:"lim"`
+	Fulls [][]mJSON `json:"fulls"` // class "pages": the shards' whole index-ordered lists (sets = their first lim items)
+	Sets  [][]mJSON `json:"sets"`
+	Mores []bool    `json:"mores"`
+	Err   bool      `json:"err"`
+	Res   []mJSON   `json:"res"`
+	More  bool      `json:"more"`
+	Class string    `json:"class"`
 }
 
 type mJSON struct {
 	ID   string `json:"id"`
 	Text string `json:"text"`
 	Raw  string `json:"raw"`
+	Dec  bool   `json:"dec"` // the text decodes (oid.ID / user.ID DecodeString) to Raw
 }
 
-func toJSON(it mItem) mJSON { return mJSON{hx(it.ID[:]), hx([]byte(it.Text)), hx(it.Raw)} }
+func decodes(k attrKind, it mItem) bool {
+	switch k.Name {
+	case "parent", "first", "associate":
+		var id oid.ID
+		return id.DecodeString(it.Text) == nil && bytes.Equal(id[:], it.Raw)
+	case "owner":
+		var u user.ID
+		return u.DecodeString(it.Text) == nil && bytes.Equal(u[:], it.Raw)
+	}
+	return false
+}
 
-func runMerge(k attrKind, lim int, sets [][]mItem, mores []bool, class string) mergeOut {
-	out := mergeOut{K: "merge", Kind: k.Name, Lim: lim, Mores: mores, Class: class, Sets: [][]mJSON{}, Res: []mJSON{}}
+func toJSON(k attrKind, it mItem) mJSON {
+	return mJSON{hx(it.ID[:]), hx([]byte(it.Text)), hx(it.Raw), decodes(k, it)}
+}
+
+func runMerge(k attrKind, lim int, fulls, sets [][]mItem, mores []bool, class string) mergeOut {
+	out := mergeOut{K: "merge", Kind: k.Name, Attr: hx([]byte(k.Attr)), Int: k.CmpInt, Lim: lim, Mores: mores, Class: class,
+		Fulls: [][]mJSON{}, Sets: [][]mJSON{}, Res: []mJSON{}}
 	in := make([][]client.SearchResultItem, len(sets))
-	byKey := map[string]mItem{}
+	for i := range fulls {
+		out.Fulls = append(out.Fulls, []mJSON{})
+		for _, it := range fulls[i] {
+			out.Fulls[i] = append(out.Fulls[i], toJSON(k, it))
+		}
+	}
 	for i := range sets {
 		out.Sets = append(out.Sets, []mJSON{})
 		for _, it := range sets[i] {
-			out.Sets[i] = append(out.Sets[i], toJSON(it))
+			out.Sets[i] = append(out.Sets[i], toJSON(k, it))
 			ri := client.SearchResultItem{ID: it.ID}
 			if k.Attr != "" {
 				ri.Attributes = []string{it.Text}
 			}
 			in[i] = append(in[i], ri)
-			byKey[string(it.ID[:])+"|"+it.Text] = it
 		}
 	}
-	res, more, err := objectcore.MergeSearchResults(uint16(lim), k.Attr, k.CmpInt, in, slices.Clone(mores))
+	var res []client.SearchResultItem
+	var more bool
+	var err error
+	func() {
+		defer func() {
+			if r := recover(); r != nil {
+				err = fmt.Errorf("panic: %v", r)
+			}
+		}()
+		res, more, err = objectcore.MergeSearchResults(uint16(lim), k.Attr, k.CmpInt, in, slices.Clone(mores))
+	}()
 	if err != nil {
 		out.Err = true
 		return out
@@ -145,7 +180,7 @@ func runMerge(k attrKind, lim int, sets [][]mItem, mores []bool, class string) m
 		if len(r.Attributes) > 0 {
 			t = r.Attributes[0]
 		}
-		out.Res = append(out.Res, toJSON(byKey[string(r.ID[:])+"|"+t]))
+		out.Res = append(out.Res, mJSON{ID: hx(r.ID[:]), Text: hx([]byte(t))})
 	}
 	return out
 }
@@ -166,28 +201,69 @@ func mergeGen(n int) {
 			t, r := genValue(k)
 			all = append(all, mItem{id, t, r})
 		}
-		lim := pick([]int{1, 2, 3, 1000})
+		lim := pick([]int{1, 2, 3, 5, 1000})
 		nSets := 1 + rnd.intn(4)
+		fulls := make([][]mItem, nSets)
 		sets := make([][]mItem, nSets)
 		mores := make([]bool, nSets)
-		class := "sorted"
+		class := "pages"
 		for i := range sets {
+			p := pick([]int{0, 30, 60, 60, 100})
 			for _, it := range all {
-				if rnd.chance(60) {
-					sets[i] = append(sets[i], it)
+				if rnd.chance(p) {
+					fulls[i] = append(fulls[i], it)
 				}
 			}
-			slices.SortFunc(sets[i], indexLess) // every shard returns its objects in index order
+			slices.SortFunc(fulls[i], indexLess) // every shard returns its objects in index order
+			sets[i] = slices.Clone(fulls[i])
 			if len(sets[i]) > lim {
 				sets[i], mores[i] = sets[i][:lim], true
 			}
 		}
-		if rnd.chance(8) { // malformed stream: unsorted set
+		// malformed streams: the model must still agree with the code; no reference applies
+		if rnd.chance(25) {
 			i := rnd.intn(nSets)
-			slices.Reverse(sets[i])
-			class = "unsorted"
+			switch rnd.intn(6) {
+			case 0: // unsorted set
+				slices.Reverse(sets[i])
+				class = "unsorted"
+			case 1: // wrong flags
+				for j := range mores {
+					mores[j] = rnd.chance(50)
+				}
+				class = "badflags"
+			case 2: // inner duplicate
+				if len(sets[i]) > 0 {
+					sets[i] = append(sets[i], sets[i][rnd.intn(len(sets[i]))])
+				}
+				class = "dupinner"
+			case 3: // an attribute that is not of the class (non-int, not Base58, ...)
+				if len(sets[i]) > 0 && k.Attr != "" {
+					j := rnd.intn(len(sets[i]))
+					it := sets[i][j]
+					it.Text = pick([]string{"", "x", "12a", "-", "+5", "007", "0OIl", it.Text + "1"})
+					it.Raw = nil
+					sets[i][j] = it
+				}
+				class = "badattr"
+			case 4: // copies of one object with different values
+				if len(sets[i]) > 0 && k.Attr != "" {
+					j := rnd.intn(len(sets[i]))
+					it := sets[i][j]
+					it.Text, it.Raw = genValue(k)
+					sets[i][j] = it
+				}
+				class = "attrdiff"
+			default: // shuffled
+				for a := len(sets[i]) - 1; a > 0; a-- {
+					b := rnd.intn(a + 1)
+					sets[i][a], sets[i][b] = sets[i][b], sets[i][a]
+				}
+				class = "unsorted"
+			}
+			fulls = nil
 		}
-		_ = enc.Encode(runMerge(k, lim, sets, mores, class))
+		_ = enc.Encode(runMerge(k, lim, fulls, sets, mores, class))
 	}
 }
 
